@@ -63,6 +63,11 @@ def setup():
     import numpy as np
     from exetera.core import operations as ops, session, journal
     _np, _ops, _session, _journal = np, ops, session, journal
+    import os
+    if os.environ.get('VERIF_C17_FAULTLOG'):
+        import faulthandler
+        faulthandler.enable(file=open('%s.%s.%d' % (os.environ['VERIF_C17_FAULTLOG'], os.environ.get('VERIF_MODE', ''), os.getpid()), 'w'),
+                            all_threads=True)
 
 
 def warmup():
